@@ -106,6 +106,10 @@ func FormatBytes(s uint64) string {
 	} else {
 		e = math.Floor(log(float64(s), 1000))
 	}
+	if int(e) >= len(sizes) {
+		// Quantities of 1000 PB and more are given in the largest unit.
+		e = float64(len(sizes) - 1)
+	}
 
 	unit := uint64(math.Pow(1000, e))
 	suffix := sizes[int(e)]
